@@ -24,12 +24,28 @@ AE_CONFIG = {'supported_ts', 'timeout', 'max_pdu_length', 'context_def_list', 's
 CONFIG_API = {'__init__', 'add_scu', 'add_scp', 'update_context_def_list', '_build_context_def_list'}
 
 
+IMMUTABLE_CALLS = ('frozenset', 'tuple', 'uid.UID', 'UID', 'str', 'int', 'bytes', 'float', 'bool', 'struct.Struct',
+                   'namedtuple', 'collections.namedtuple', 'threading.local', 'threading.Lock', 'Lock', 're.compile',
+                   'logging.getLogger', 'Status', 's', 'object', 'range', 'partial', 'functools.partial')
+
+
 def is_mutable_expr(e: ast.expr) -> bool:
     if isinstance(e, (ast.Dict, ast.List, ast.Set, ast.ListComp, ast.DictComp, ast.SetComp)):
         return True
     if isinstance(e, ast.Call) and norm(e.func) in ('dict', 'list', 'set', 'collections.deque', 'deque', 'collections.defaultdict',
                                                     'defaultdict', 'collections.OrderedDict', 'bytearray'):
         return True
+    return False
+
+
+def is_shared_object_expr(e: ast.expr) -> bool:
+    """module-level value that is a mutable object: a container, or an instance created by a call that is not
+    known to produce an immutable / thread-safe value (e.g. ``Dataset()``)"""
+    if is_mutable_expr(e):
+        return True
+    if isinstance(e, ast.Call):
+        t = norm(e.func)
+        return t not in IMMUTABLE_CALLS and not t.endswith('.UID') and not t.endswith('.Struct')
     return False
 
 
@@ -73,7 +89,16 @@ def call_graph(repo: Repo) -> Dict[str, Set[str]]:
                             init = m.classes[nm].find_method('__init__')
                             if init:
                                 out.add(init.key)
-            # service callables reached through tables: service(...) in _loop / partial in get_scu
+                # callbacks wired through constructor arguments: get_file_cb <- AEBase.get_file and its overrides
+                if nm == 'get_file_cb':
+                    for t in by_name.get('get_file', []):
+                        out.add(t.key)
+        # table dispatch: StateMachine.action() calls whatever the transition table holds
+        if f.key == 'fsm:StateMachine.action':
+            import re as _re
+            for t in funcs:
+                if t.cls is not None and t.cls.name == 'StateMachine' and _re.match(r'^(ae|dt|ar|aa)_\d+$', t.name):
+                    out.add(t.key)
         g[f.key] = out
     return g
 
@@ -92,6 +117,8 @@ def reachable(g: Dict[str, Set[str]], roots: Set[str]) -> Set[str]:
 
 def _selfcheck():
     """zero-expected rules carry a positive example that must match on every run"""
+    if not is_shared_object_expr(ast.parse('Dataset()', mode='eval').body) or is_shared_object_expr(ast.parse('threading.local()', mode='eval').body):
+        raise AnalysisError('internal: shared-object classifier broken')
     t = ast.parse('TABLE = {}\ndef f(x):\n    TABLE[x] = 1\n    TABLE.update({})\n')
     if len(mutations_of(t.body[1], {'TABLE'})) != 2:
         raise AnalysisError('internal: module-level mutation detector does not fire on its positive example')
@@ -294,7 +321,23 @@ def run(repo, rep):
             continue
         n_checked += 1
         m = fi.module
-        names = {n for n, vs in m.assigns.items() if is_mutable_expr(vs[-1])}
+        names = {n for n, vs in m.assigns.items() if is_shared_object_expr(vs[-1])}
+        # local aliases of module-level objects: ``meta = FILE_META`` followed by ``meta.x = ...``
+        aliases = {}
+        for n in ast.walk(fi.node):
+            if isinstance(n, ast.Assign) and isinstance(n.value, ast.Name) and n.value.id in names:
+                for t in n.targets:
+                    if isinstance(t, ast.Name):
+                        aliases[t.id] = n.value.id
+        for n in ast.walk(fi.node):
+            if isinstance(n, (ast.Assign, ast.AugAssign)):
+                for t in (n.targets if isinstance(n, ast.Assign) else [n.target]):
+                    if isinstance(t, ast.Attribute) and isinstance(t.value, ast.Name) and \
+                            (t.value.id in names or t.value.id in aliases) and t.value.id not in ('_tls',):
+                        shared = aliases.get(t.value.id, t.value.id)
+                        probs.append('%s writes attribute %s of the module-level object %s (line %d): every association thread '
+                                     'shares that one object' % (fi.key, t.attr, shared, n.lineno))
+        names = names | set(aliases)
         # module-level containers of other modules reached through an alias: mod.NAME[...] = / mod.NAME.update()
         for n in ast.walk(fi.node):
             tgt = None
